@@ -39,6 +39,8 @@ pub struct Case {
     pub transport: Transport,
     pub minor: u32,
     pub fault: Option<FaultPlan>,
+    /// the fault sits on the broker side of the victim's transport instead of the client side
+    pub broker_side: bool,
     pub cause: Cause,
     /// after how many "stage reached" signals the clean cause strikes
     pub stage: usize,
@@ -53,6 +55,8 @@ impl Case {
             "minor": self.minor,
             "fault_at": self.fault.as_ref().map(|f| f.at_op),
             "fault_eof": self.fault.as_ref().map(|f| f.kind == FaultKind::Eof),
+            "fault_kind": self.fault.as_ref().map(|f| format!("{:?}", f.kind)),
+            "fault_broker_side": self.broker_side,
             "cause": format!("{:?}", self.cause),
             "stage": self.stage,
             "ops": self.ops,
@@ -63,7 +67,22 @@ impl Case {
         Case {
             transport: if t == 0 { Transport::Unbounded } else { Transport::Bounded(t) },
             minor: j["minor"].as_u64().unwrap_or(20) as u32,
-            fault: j["fault_at"].as_u64().map(|k| FaultPlan { at_op: k, kind: if j["fault_eof"].as_bool() == Some(true) { FaultKind::Eof } else { FaultKind::Error } }),
+            fault: j["fault_at"].as_u64().map(|k| FaultPlan {
+                at_op: k,
+                kind: match j["fault_kind"].as_str() {
+                    Some("WriteHalf") => FaultKind::WriteHalf,
+                    Some("Eof") => FaultKind::Eof,
+                    Some(_) => FaultKind::Error,
+                    None => {
+                        if j["fault_eof"].as_bool() == Some(true) {
+                            FaultKind::Eof
+                        } else {
+                            FaultKind::Error
+                        }
+                    }
+                },
+            }),
+            broker_side: j["fault_broker_side"].as_bool() == Some(true),
             cause: match j["cause"].as_str() {
                 Some("Fault") => Cause::Fault,
                 Some("HandleShutdown") => Cause::HandleShutdown,
@@ -110,7 +129,11 @@ struct Trigger {
 
 fn make(case: &Case) -> (Vec<ClientCfg>, Vec<(String, App)>, Rc<RefCell<Option<oneshot::Sender<()>>>>, mpsc::UnboundedReceiver<()>) {
     let mut victim = ClientCfg::new(case.transport, case.minor);
-    victim.fault = case.fault.clone();
+    if case.broker_side {
+        victim.broker_fault = case.fault.clone();
+    } else {
+        victim.fault = case.fault.clone();
+    }
     let peer = ClientCfg::new(Transport::Unbounded, 20);
     let ops = case.ops;
     let peer_strict = case.cause != Cause::BrokerShutdown;
@@ -440,7 +463,7 @@ pub fn run_case(case: &Case, ch: &mut Chooser) -> (Option<(String, String)>, u64
         let k = ch.choose(mcx::Kind::Task, ready.len());
         b.exec.step(ready[k]);
     }
-    let ops = b.log.borrow().gate[0].ops;
+    let ops = b.log.borrow().gate[if case.broker_side { 2 } else { 0 }].ops;
     if let Some((task, msg)) = b.exec.panics().first() {
         let clause = if task.starts_with("client") { "client-panic" } else if task.starts_with("app") { "application-panic" } else { "broker-side-panic" };
         return (v(clause, format!("task {task} panicked: {msg}")), ops);
@@ -461,7 +484,7 @@ pub fn run_case(case: &Case, ch: &mut Chooser) -> (Option<(String, String)>, u64
     // a fault during the handshake: connecting fails with the transport error, nothing ever starts
     if let Some(Err(e)) = &log.client_results[0] {
         if e.starts_with("connect:") {
-            if case.cause == Cause::Fault && e.contains("Transport") {
+            if case.fault.is_some() && e.contains("Transport") {
                 return (None, ops);
             }
             return (v("connect-error", format!("connecting the victim failed with {e}")), ops);
@@ -482,6 +505,16 @@ pub fn run_case(case: &Case, ch: &mut Chooser) -> (Option<(String, String)>, u64
     }
     // run() of the victim
     let fault_delivered = log.gate[0].fault_delivered;
+    let broker_fault_delivered = log.gate[2].fault_delivered;
+    if case.cause != Cause::Fault && case.fault.is_some() && !case.broker_side && fault_delivered {
+        // a clean cause and a transport fault together: the fault wins, run() reports it
+        match &log.client_results[0] {
+            None => return (v("run-does-not-return", format!("Client::run of the victim did not return after {:?} with a transport fault during the shutdown sequence", case.cause)), ops),
+            Some(Ok(())) => return (v("fault-swallowed", format!("a transport fault was delivered to the client during the shutdown sequence ({:?}) but run() returned Ok", case.cause)), ops),
+            Some(Err(e)) if e.contains("Transport") => {}
+            Some(Err(e)) => return (v("run-error", format!("Client::run of the victim returned {e}")), ops),
+        }
+    } else {
     match (&log.client_results[0], case.cause) {
         (None, Cause::None) => {}
         (None, _) => return (v("run-does-not-return", format!("Client::run of the victim did not return after {:?}", case.cause)), ops),
@@ -491,11 +524,12 @@ pub fn run_case(case: &Case, ch: &mut Chooser) -> (Option<(String, String)>, u64
             return (v("fault-swallowed", "a transport fault was delivered to the client but run() returned Ok".to_string()), ops);
         }
         (Some(Ok(())), _) => {}
-        (Some(Err(e)), Cause::Fault) if fault_delivered && e.contains("Transport") => {}
+        (Some(Err(e)), Cause::Fault) if (fault_delivered || broker_fault_delivered) && e.contains("Transport") => {}
         (Some(Err(e)), Cause::Kick) | (Some(Err(e)), Cause::BrokerShutdown) | (Some(Err(e)), Cause::HandleShutdown) => {
             return (v("run-error-on-clean-stop", format!("Client::run returned {e} after the clean cause {:?}", case.cause)), ops);
         }
         (Some(Err(e)), _) => return (v("run-error", format!("Client::run of the victim returned {e}")), ops),
+    }
     }
     match &log.client_results[1] {
         Some(Ok(())) => {}
@@ -545,7 +579,7 @@ pub fn run(tier: Tier) -> ! {
     };
     for ops in &op_sets {
         for (t, minor) in &transports {
-            let base = Case { transport: *t, minor: *minor, fault: None, cause: Cause::None, stage: 0, ops: *ops };
+            let base = Case { transport: *t, minor: *minor, fault: None, broker_side: false, cause: Cause::None, stage: 0, ops: *ops };
             // how many transport operations does the victim perform without a fault?
             let mut ch = Chooser::new(&[]);
             let mut probe = base.clone();
@@ -553,14 +587,48 @@ pub fn run(tier: Tier) -> ! {
             probe.stage = 99;
             let (_, n_ops) = run_case(&probe, &mut ch);
             for k in 0..=n_ops {
-                for kind in [FaultKind::Error, FaultKind::Eof] {
+                for kind in [FaultKind::Error, FaultKind::Eof, FaultKind::WriteHalf] {
                     let mut c = base.clone();
                     c.cause = Cause::Fault;
                     c.fault = Some(FaultPlan { at_op: k, kind });
                     cases.push(c);
                 }
             }
+            // the same on the broker side of the victim's transport
+            let mut ch = Chooser::new(&[]);
+            let mut probe = base.clone();
+            probe.cause = Cause::HandleShutdown;
+            probe.stage = 99;
+            probe.broker_side = true;
+            let (_, n_broker_ops) = run_case(&probe, &mut ch);
+            for k in 0..=n_broker_ops {
+                for kind in [FaultKind::Error, FaultKind::WriteHalf] {
+                    let mut c = base.clone();
+                    c.cause = Cause::Fault;
+                    c.broker_side = true;
+                    c.fault = Some(FaultPlan { at_op: k, kind });
+                    cases.push(c);
+                }
+            }
             let n_tasks = ops.count_ones() as usize;
+            // a transport fault during the shutdown sequence itself (the clean cause strikes once
+            // everything is pending; the fault index ranges over that run's operations)
+            let combo_causes: &[Cause] = if tier == Tier::Thorough { &[Cause::HandleShutdown, Cause::BrokerShutdown, Cause::Kick] } else { &[Cause::HandleShutdown, Cause::BrokerShutdown] };
+            for &cause in combo_causes {
+                let mut ch = Chooser::new(&[]);
+                let mut probe = base.clone();
+                probe.cause = cause;
+                probe.stage = n_tasks;
+                let (_, n) = run_case(&probe, &mut ch);
+                let kinds: &[FaultKind] = if tier == Tier::Thorough { &[FaultKind::WriteHalf, FaultKind::Error] } else { &[FaultKind::WriteHalf] };
+                for k in 0..=n {
+                    for kind in kinds {
+                        let mut c = probe.clone();
+                        c.fault = Some(FaultPlan { at_op: k, kind: kind.clone() });
+                        cases.push(c);
+                    }
+                }
+            }
             for cause in [Cause::HandleShutdown, Cause::BrokerShutdown, Cause::Kick] {
                 for stage in 0..=n_tasks {
                     let mut c = base.clone();
